@@ -133,40 +133,60 @@ def s1(ctx, rep):
 
     results = {}  # domain cls -> list of (encoder cls, path conds, node)
 
-    def walk(stmts, D, conds, clsvar):
+    def split_test(t, D):
+        """(static truth of the isinstance part for domain class D: True/False/None, remaining condition or None)"""
+        parts = t.values if isinstance(t, ast.BoolOp) and isinstance(t.op, ast.And) else [t]
+        static, rest = None, []
+        for p_ in parts:
+            if isinstance(p_, ast.Call) and fn_name(p_) == "isinstance" and U(p_.args[0]) == dv:
+                k = P.resolve_expr_static(f.module, p_.args[1], None)
+                if not isinstance(k, ClassInfo):
+                    raise AnchorError(f"dispatch: isinstance against unknown class {U(p_.args[1])}")
+                val = k in P.mro(D)
+                static = val if static is None else (static and val)
+            else:
+                rest.append(p_)
+        if static is None:
+            return None, t
+        if not rest:
+            return static, None
+        return static, (rest[0] if len(rest) == 1 else ast.BoolOp(op=ast.And(), values=rest))
+
+    def walk(stmts, D, conds, bindings):
+        """bindings: list of (var, encoder class, path conds, node) - the possible current values of the class variable"""
         for st in stmts:
             if isinstance(st, ast.If):
-                t = st.test
-                if isinstance(t, ast.Call) and fn_name(t) == "isinstance" and U(t.args[0]) == dv:
-                    k = P.resolve_expr_static(f.module, t.args[1], None)
-                    if not isinstance(k, ClassInfo):
-                        raise AnchorError(f"dispatch: isinstance against unknown class {U(t.args[1])}")
-                    if k in P.mro(D):
-                        clsvar = walk(st.body, D, conds, clsvar)
-                    else:
-                        clsvar = walk(st.orelse, D, conds, clsvar)
+                static, rest = split_test(st.test, D)
+                if static is False:
+                    bindings = walk(st.orelse, D, conds, bindings)
+                elif static is True and rest is None:
+                    bindings = walk(st.body, D, conds, bindings)
                 else:
-                    a = walk(st.body, D, conds + [(t, True)], clsvar)
-                    b = walk(st.orelse, D, conds + [(t, False)], clsvar)
-                    clsvar = a if a is not clsvar else b
-                    if a is not clsvar and b is not clsvar and a != b:
-                        clsvar = a + b
+                    c = rest if rest is not None else st.test
+                    a_ = walk(st.body, D, conds + [(c, True)], list(bindings))
+                    b_ = walk(st.orelse, D, conds + [(c, False)], list(bindings))
+                    new_a = [x for x in a_ if x not in bindings]
+                    new_b = [x for x in b_ if x not in bindings]
+                    if new_a and new_b:
+                        bindings = new_a + new_b
+                    elif new_a or new_b:
+                        bindings = new_a + new_b + [x for x in bindings]
                 continue
             for x in walk_shallow(st):
                 if isinstance(x, ast.Assign) and isinstance(x.targets[0], ast.Name) and encoder_of(x.value) is not None:
-                    clsvar = [(x.targets[0].id, encoder_of(x.value), list(conds), x)]
+                    bindings = [(x.targets[0].id, encoder_of(x.value), list(conds), x)]
                 if isinstance(x, ast.Call):
                     k = encoder_of(x.func)
                     if k is not None:
                         results.setdefault(D, []).append((k, list(conds), x, x))
-                    elif isinstance(x.func, ast.Name) and clsvar and any(v[0] == x.func.id for v in clsvar):
-                        for v in clsvar:
+                    elif isinstance(x.func, ast.Name) and any(v[0] == x.func.id for v in bindings):
+                        for v in bindings:
                             if v[0] == x.func.id:
                                 results.setdefault(D, []).append((v[1], v[2], v[3], x))
-        return clsvar
+        return bindings
 
     for D in concrete:
-        walk(loop.body, D, [], None)
+        walk(loop.body, D, [], [])
         got = results.get(D, [])
         if not got:
             rep.bad("S1", "exhaustive_dispatch", f"HyperparameterRangesImpl.__init__: encoder for {D.name}", f, loop,
